@@ -232,11 +232,14 @@ def isDigitB (b : UInt8) : Bool := 48 ≤ b && b ≤ 57
 def digitsValB (ds : Bytes) : Nat := ds.foldl (fun a c => a * 10 + (c.toNat - 48)) 0
 
 /-- `strconv.ParseInt(s, 10, 64)`: optional sign, at least one digit, nothing else, int64 range -/
+def takeSignB : Bytes → Bool × Bytes
+  | 45 :: r => (true, r)
+  | 43 :: r => (false, r)
+  | s => (false, s)
+
 def parseInt (s : Bytes) : Option Int :=
-  let (neg, d) : Bool × Bytes := match s with
-    | 45 :: r => (true, r)
-    | 43 :: r => (false, r)
-    | _ => (false, s)
+  let neg := (takeSignB s).1
+  let d := (takeSignB s).2
   if d.isEmpty || !d.all isDigitB then none
   else
     let n := digitsValB d
@@ -369,11 +372,17 @@ def writeLenient : List Field → List Val → List Bytes
      | some b => cellOf f.size b) :: writeLenient fs vs
   | fs, _ => blankRow fs
 
+/-- `geom2Shp(v.Field(e.geomIndex).Interface().(geom.Geom))`: a nil `*Bounds` is a non-nil interface
+value, so the `g == nil` test does not catch it and `Polygons()`/`b.Min` dereferences it -/
+def fieldShape (eq : Pt α → Pt α → Bool) : GK → Geom α → Except Fault (Shape α)
+  | .B, .nil => .error .nilDeref
+  | _, g => geom2Shp eq g
+
 /-- `Encoder.Encode` (struct path). `g` is the value of the geometry field (`nil` only for a nil
-`*Bounds`, which `geom2Shp` dereferences). -/
+`*Bounds`). -/
 def encodeS (eq : Pt α → Pt α → Bool) (e : EncS) (rows : List (Shape α × List Bytes)) (g : Geom α) (vals : List Val) :
     List (Shape α × List Bytes) × WRes :=
-  match (match e.geomKind, g with | .B, .nil => Except.error Fault.nilDeref | _, _ => geom2Shp eq g) with
+  match fieldShape eq e.geomKind g with
   | .error .nilDeref => (rows, .panic)
   | .error _ => (rows, .err)
   | .ok sh =>
@@ -388,6 +397,16 @@ def encodeF (eq : Pt α → Pt α → Bool) (fields : List Field) (rows : List (
   | .error _ => (rows, .err)
   | .ok sh =>
     (rows ++ [(sh, writeLenient fields vals)], if vals.length > fields.length then .panic else .ok)
+
+/-- a whole sequence of `EncodeFields` calls: the rows of the file and the per-call results -/
+def writeAllF (eq : Pt α → Pt α → Bool) (fields : List Field) (recs : List (Geom α × List Val)) :
+    List (Shape α × List Bytes) × List WRes :=
+  recs.foldl (fun acc r => let x := encodeF eq fields acc.1 r.1 r.2; (x.1, acc.2 ++ [x.2])) ([], [])
+
+/-- a whole sequence of `Encode` calls -/
+def writeAllS (eq : Pt α → Pt α → Bool) (e : EncS) (recs : List (Geom α × List Val)) :
+    List (Shape α × List Bytes) × List WRes :=
+  recs.foldl (fun acc r => let x := encodeS eq e acc.1 r.1 r.2; (x.1, acc.2 ++ [x.2])) ([], [])
 
 end store
 
